@@ -233,10 +233,20 @@ pub mod parser {
     pub(crate) fn parse_css_legend(
         input: &str,
     ) -> Result<Vec<(String, String)>, pom::Error> {
-        // carriage returns are dropped, so that a legend with CRLF line endings
-        // is parsed the same way as one with LF line endings
-        let input_chars: Vec<char> =
-            input.chars().filter(|ch| *ch != '\r').collect();
+        // carriage returns and the blanks at the end of each line are dropped, so that
+        // a legend with CRLF line endings or with trailing spaces or tabs is parsed
+        // the same way as a clean one with LF line endings
+        let lines: Vec<&str> = input
+            .split('\n')
+            .map(|line| {
+                line.trim_end_matches(|ch| ch == ' ' || ch == '\t' || ch == '\r')
+            })
+            .collect();
+        let input_chars: Vec<char> = lines
+            .join("\n")
+            .chars()
+            .filter(|ch| *ch != '\r')
+            .collect();
         parse_css_legend_chars(&input_chars)
     }
 
